@@ -36,7 +36,7 @@ func c05StubMergeThenIntroduce(_ *tsTable, _ snapshotCreator, parts []*partWrapp
 	return nil, nil
 }
 
-//verif:harness prop=C05,C03 tier=quick,thorough reach=merged native=off paths=400000 redirect=tsTable.mergePartsThenSendIntroduction:c05StubMergeThenIntroduce
+//verif:harness prop=C05,C03,C17 tier=quick,thorough reach=merged native=off paths=400000 redirect=tsTable.mergePartsThenSendIntroduction:c05StubMergeThenIntroduce
 // The flusher's merge of in-memory parts, grouped by segment: for every snapshot layout the
 // introduction it sends names as "merged away" exactly the parts whose rows went into the new
 // part - all from one segment, at least two, each in-memory part in at most one merge - so that
